@@ -118,7 +118,13 @@ def gen_alphabet(rng):
     return alpha
 
 
-WISDOM_KINDS = ["absent", "empty", "truncated", "garbage", "wrong_type", "valid_other", "directory", "tuple_of_wrong_len", "huge_strings"]
+# What an interrupted, an older or a foreign run can leave where the wisdom file
+# is expected.  Deliberately NOT arbitrary random bytes: the file is a pickle, and
+# random bytes are a pickle *program* (a seeded 164-byte string made CPython's
+# unpickler try to grow its memo to 3.9e9 slots - tens of GB, minutes of zeroing;
+# others could import modules or call things).  No history of runs produces that,
+# and no property of BLDFM is about surviving hostile pickles.
+WISDOM_KINDS = ["absent", "empty", "truncated", "zero_filled", "wrong_type", "valid_other", "directory", "tuple_of_wrong_len", "huge_strings", "truncated"]
 
 
 def generate(seed, tier="quick", faults=True):
@@ -212,7 +218,7 @@ def generate(seed, tier="quick", faults=True):
     procs = [{"chunksize": gen.choice([0, 0, 1, 3, 16])} for _ in range(nproc + 1)]
     return {"engine": "histsim", "reuse_arrays": gen.random() < 0.5, "property": PROP, "seed": seed, "tier": tier, "faults": faults, "alphabet": alpha, "ops": ops, "procs": procs,
             "numba_state": gen.choice(["serial_first", "parallel_first", "serial_first", "parallel_first", "parallel_only"] if tier == "thorough" else ["serial_first", "parallel_first"]),
-            "initial_wisdom": (fault.choice(["absent", "absent", "valid_other", "empty", "garbage"]) if faults else "absent")}
+            "initial_wisdom": (fault.choice(["absent", "absent", "valid_other", "empty", "zero_filled", "truncated"]) if faults else "absent")}
 
 
 # ----------------------------------------------------------------------------
@@ -275,8 +281,10 @@ def _wisdom_bytes(kind, seed, frac):
         return b""
     if kind == "truncated":
         return valid[: max(1, int(frac * len(valid)))]
-    if kind == "garbage":
-        return bytes(rng.randrange(256) for _ in range(rng.randrange(1, 400)))
+    if kind in ("zero_filled", "garbage"):
+        # power loss: the size was committed, the data was not ('garbage' in
+        # records written before this kind was retired maps here too)
+        return b"\0" * max(1, int(frac * len(valid)) if kind == "zero_filled" else len(valid))
     if kind == "wrong_type":
         return pickle.dumps(rng.choice([{"wisdom": 1}, [1, 2, 3], "text", 42, None, (1, 2, 3), (b"a", b"b")]))
     if kind == "tuple_of_wrong_len":
@@ -659,6 +667,10 @@ class Segment:
 
 
 def _segment_child(w, rec, pidx, ops, first_k, run_dir, nb_dir, refs, valid_export):
+    if os.environ.get("BLDFM_VERIF_DUMP_AFTER"):
+        import faulthandler
+
+        faulthandler.dump_traceback_later(float(os.environ["BLDFM_VERIF_DUMP_AFTER"]), exit=False)
     out = {"status": "ok"}
     seg = Segment(rec, pidx, ops, first_k, run_dir, nb_dir)
     try:
